@@ -272,7 +272,12 @@ func (server *Server) ZRem(conn *redis.Conn, key string, members []string) (*red
 	if err != nil {
 		return nil, err
 	}
-	return redis.NewIntegerMessage(zset.Rem(members)), nil
+	removedMembers := zset.Rem(members)
+	if len(zset.members) == 0 {
+		// A sorted set without members does not exist.
+		db.RemoveRecord(key)
+	}
+	return redis.NewIntegerMessage(removedMembers), nil
 }
 
 func (server *Server) ZScore(conn *redis.Conn, key string, member string) (*redis.Message, error) {
